@@ -30,12 +30,17 @@ def _req_ensures(a, r):
     taken = z3.SubSeq(s, off0, off1 - off0)
     w_taken = S.wcs_of(s, off0, off1 - off0)
     nxt = T.WCS(z3.SubSeq(s, off1, 1))
+    # dependency contract of wcswidth: additive over concatenation, a blank is one column wide
+    blank = T.str_term(" ")
+    S.PENDING.extend([T.WCS(blank) == 1, Implies(T.WCS(taken) >= 0, T.WCS(z3.Concat(taken, blank)) == T.WCS(taken) + 1)])
     plain = And(T.ChunkS.s(ch) == taken, wd == w_taken)
     padded = And(T.ChunkS.s(ch) == z3.Concat(taken, T.str_term(" ")), wd == w_taken + 1, wd == a.max_width, off1 < n, nxt == 2)
     return [("post.not_exhausted", off0 < n),
             ("post.advances", And(off0 <= off1, off1 <= n)),
             ("post.chunk_is_next_characters_plus_at_most_one_pad", Or(plain, padded)),
             ("post.fits", And(wd <= a.max_width, wd >= 0)),
+            ("post.chunk_not_empty", z3.Length(T.ChunkS.s(ch)) > 0),
+            ("post.reported_width_is_the_width_of_the_chunk", T.WCS(T.ChunkS.s(ch)) == wd),
             ("post.greedy", Implies(And(plain, off1 < n), wd + nxt > a.max_width)),
             ("post.same_formatting", T.ChunkS.atts(ch) == T.ChunkS.atts(o.chunk)),
             ("post.internal_width", f.internal_width == o.internal_width + w_taken),
@@ -59,3 +64,217 @@ request = Contract(
     ensures=_req_ensures,
     callees={"wcswidth": "ext:formatstring.wcswidth"},
     loops={0: Loop(inv=_req_inv)})
+
+
+# =====================================================================================================================
+# width_aware_splitlines: the generator that fills lines from the per-run splitter                                 C11
+# =====================================================================================================================
+# Ghost trace (State.ghost), advanced by the callee effect of `request` - i.e. by exactly what its proved contract says it returns:
+#   sp.E    cells TAKEN from the source so far (the `taken` characters of every request, with the run's formatting)
+#   sp.G    cells EMITTED so far (the chunks returned by request: taken, or taken + one padding blank)
+#   sp.pad  the last request returned a padded chunk and no line has been yielded since
+# and gen.out, the sequence of yielded lines.  The statement becomes:
+#   content   at the end  E == cells(self)        every character taken exactly once, in order, with its formatting
+#             and         G == FLAT(gen.out)      what was emitted is exactly what the lines hold, in order
+#             where G differs from E only by the pads that `request` may add: a single blank, formatted like the run, when the next
+#             character is double-width and the line is then full (request's contract: padded => returned width == max_width)
+#   pads      a request is never made while sp.pad holds: a pad is always the last thing on its line
+#   widths    every yielded line is non-empty and at most `columns` wide, every line but the last exactly `columns` wide
+from pyvc.values import Sym, ObjV, fresh as _fresh, mk_int
+from pyvc.contract import FmtT, NS
+from pyvc.loops import GHOSTS
+
+
+def _req_result(a, st):
+    ex = a._ex
+    o = st.deref(a._raw["self"])
+    s = T.ChunkS.s(o.fields["chunk"].t)
+    off0 = o.fields["internal_offset"]
+    off0 = off0.t if isinstance(off0, Sym) else z3.IntVal(off0)
+    if ex.decide(off0 == z3.Length(s), st):
+        return None
+    return (Sym("int", _fresh("req_w", T.I)), Sym("chunk", _fresh("req_chunk", T.ChunkS)))
+
+
+def _req_effect(a, st, res):
+    if res is None:
+        return
+    ex = a._ex
+    o = st.deref(a._raw["self"])
+    ch0 = o.fields["chunk"].t
+    s, at = T.ChunkS.s(ch0), T.ChunkS.atts(ch0)
+    off0 = o.fields["internal_offset"]
+    off0 = off0.t if isinstance(off0, Sym) else z3.IntVal(off0)
+    off1 = _fresh("off_after", T.I)
+    o.fields["internal_offset"] = Sym("int", off1)
+    o.fields["internal_width"] = Sym("int", _fresh("iw_after", T.I))
+    g = st.ghost
+    if "sp.E" in g:
+        wd, ch = res
+        taken = z3.SubSeq(s, off0, off1 - off0)
+        ex.oblige(st, "trace.pad_only_at_the_end_of_a_line", z3.Not(g["sp.pad"]), label="no request follows a padded chunk on the same line")
+        st.fact(T.Lemmas.str_slice_cells(taken, s, off0, off1, at), T.Lemmas.str_slice_cells(z3.SubSeq(s, 0, off0), s, z3.IntVal(0), off0, at),
+                T.Lemmas.str_slice_cells(z3.SubSeq(s, 0, off1), s, z3.IntVal(0), off1, at), T.Lemmas.chunk(ch.t),
+                T.Lemmas.cells_of(s, at))
+        g["sp.E"] = z3.Concat(g["sp.E"], T.CELLS(taken, at))
+        g["sp.G"] = z3.Concat(g["sp.G"], T.CELLS(T.ChunkS.s(ch.t), T.ChunkS.atts(ch.t)))
+        g["sp.pad"] = z3.Not(T.ChunkS.s(ch.t) == taken)
+
+
+request.result = _req_result
+request.effect = _req_effect
+request.modifies = ["internal_offset", "internal_width"]
+
+
+def _reinit_effect(a, st, res):
+    o = st.deref(a._raw["self"])
+    o.fields["chunk"] = a._raw["chunk"]
+    o.fields["internal_offset"] = 0
+    o.fields["internal_width"] = 0
+    o.fields["divides"] = None          # (only used by nothing else in the verified code)
+
+
+reinit = Contract(M + "ChunkSplitter.reinit", "C11", ["self", "chunk"], kind="method", shapes=[],
+                  doc="callee form: the splitter is pointed at the given run, nothing read yet (offset and width 0)")
+reinit.effect = _reinit_effect
+reinit.modifies = ["chunk", "internal_offset", "internal_width", "divides"]
+
+
+def _splitter_result(a, st):
+    return st.alloc(ObjV("ChunkSplitter", dict(chunk=a._raw["self"], internal_offset=0, internal_width=0, divides=None)))
+
+
+chunk_splitter = Contract(M + "Chunk.splitter", "C11", ["self"], kind="method", shapes=[], result=_splitter_result,
+                          doc="callee form: a ChunkSplitter pointed at this run (ChunkSplitter.__init__ calls reinit)")
+
+
+def _gen_setup(st, values):
+    g = st.ghost
+    g["gen.out"] = z3.Empty(T.SF)
+    g["sp.E"] = z3.Empty(T.SC)
+    g["sp.G"] = z3.Empty(T.SC)
+    g["sp.pad"] = z3.BoolVal(False)
+    st.fact(T.FLAT(z3.Empty(T.SF)) == z3.Empty(T.SC))
+
+
+def _on_yield(st, v, ex):
+    st.ghost["sp.pad"] = z3.BoolVal(False)
+
+
+def _line_ok(out, j, columns):
+    xs = T.FmtS.chunks(out[j])
+    return And(T.TOTW(xs) == columns, z3.Length(T.VIEW(xs)) > 0)
+
+
+def _common_inv(L, g):
+    cols = L.old.columns
+    line = L.chunks_of_line
+    if not z3.is_expr(line):
+        line = z3.Empty(T.SCh)
+        S.PENDING.extend(T.Lemmas.list_empty(line))
+    out = g["gen.out"]
+    return [g["sp.G"] == z3.Concat(T.FLAT(out), T.VIEW(line)),
+            L.width_of_line == T.TOTW(line), L.width_of_line >= 0, L.width_of_line < cols, L.columns == cols,
+            Implies(z3.Length(line) > 0, z3.Length(T.VIEW(line)) > 0),
+            Not(g["sp.pad"]),
+            lambda j: Implies(And(j >= 0, j < z3.Length(out)), _line_ok(out, j, cols))]
+
+
+def _outer_inv(L):
+    g = L._st.ghost
+    return [g["sp.E"] == L.V] + _common_inv(L, g)
+
+
+def _inner_inv(L):
+    g = L._st.ghost
+    sp = L.splitter
+    src = L.source_chunk
+    s, at = T.ChunkS.s(src), T.ChunkS.atts(src)
+    off = sp.internal_offset
+    pre = z3.SubSeq(s, 0, off)
+    S.PENDING.extend(T.Lemmas.str_slice_cells(pre, s, z3.IntVal(0), off, at))
+    return [sp.chunk == src, off >= 0, off <= z3.Length(s),
+            g["sp.E"] == z3.Concat(g["ctx.V"], T.CELLS(pre, at))] + _common_inv(L, g)
+
+
+def _gen_ensures(a, r):
+    if not z3.is_expr(a.self):
+        # run time (replay / bounded): the generator is consumed and judged by the statement's own oracle
+        import props.C11 as C11
+        d = C11.judge(a.self, a.columns, list(r))
+        return [("post.lines_wrap_without_losing_anything", d == "")]
+    st = a.final_state
+    g = st.ghost
+    out, cols = g["gen.out"], a.columns
+    xs = T.FmtS.chunks(a.self)
+    n = z3.Length(out)
+    return [("post.every_character_taken_once_in_order_with_its_formatting", g["sp.E"] == T.VIEW(xs)),
+            ("post.the_lines_hold_exactly_what_was_emitted", T.FLAT(out) == g["sp.G"]),
+            ("post.no_pad_left_in_the_middle_of_a_line", Not(g["sp.pad"])),
+            ("post.no_line_empty_or_wider_than_columns", lambda j: Implies(And(j >= 0, j < n), And(z3.Length(T.VIEW(T.FmtS.chunks(out[j]))) > 0,
+                                                                                                   T.TOTW(T.FmtS.chunks(out[j])) <= cols))),
+            ("post.every_line_but_the_last_exactly_columns_wide", lambda j: Implies(And(j >= 0, j < n - 1), T.TOTW(T.FmtS.chunks(out[j])) == cols))]
+
+
+_gen_outer = Loop(ghosts=["V"], inv=_outer_inv)
+_gen_outer.types = {"chunks_of_line": "chunk"}
+_gen_inner = Loop(inv=_inner_inv)
+_gen_inner.types = {"chunks_of_line": "chunk"}
+
+splitlines_gen = Contract(
+    M + "FmtStr._width_aware_splitlines#body", "C11", ["self", "columns"], kind="method",
+    shapes=[Shape("any", dict(self=FmtT(), columns=IntT(2)))],
+    requires=lambda a: [lambda i: Implies(And(i >= 0, i < z3.Length(T.FmtS.chunks(a.self))), T.WCS(T.ChunkS.s(T.FmtS.chunks(a.self)[i])) >= 0)],
+    ensures=_gen_ensures,
+    loops={0: _gen_outer, 1: _gen_inner})
+splitlines_gen.setup = _gen_setup
+splitlines_gen.on_yield = _on_yield
+
+
+def _small_wraps():
+    import itertools
+    from curtsies.formatstring import FmtStr, Chunk
+    atts = [{"fg": 31}, {"bold": True}, {"bg": 44}]
+    for n in range(0, 5):
+        for p in itertools.product("a\uff25\u0301", repeat=n):
+            t = "".join(p)
+            for i in range(n + 1):
+                for j in range(i, n + 1):
+                    for cols in (2, 3):
+                        yield dict(self=FmtStr(Chunk(t[:i], atts[0]), Chunk(t[i:j], atts[1]), Chunk(t[j:], atts[2])), columns=cols)
+
+
+splitlines_gen.enumerate_small = _small_wraps
+
+
+# ---------------------------------------------------------------------------------------------------------------------
+# the small pieces around the generator, verified against the callee forms used above
+# ---------------------------------------------------------------------------------------------------------------------
+import contracts.columns  # noqa: F401,E402  (wcwidth / wcswidth contracts)
+
+reinit_body = Contract(
+    M + "ChunkSplitter.reinit#body", "C11", ["self", "chunk"], kind="method",
+    shapes=[Shape("any", dict(self=ObjT("ChunkSplitter", dict(chunk=ChunkT(), internal_offset=IntT(), internal_width=IntT())), chunk=ChunkT()))],
+    ensures=lambda a, r: [("post.points_at_the_given_run_nothing_read", And(a.final.self.chunk == a.chunk, a.final.self.internal_offset == 0,
+                                                                           a.final.self.internal_width == 0))],
+    callees={"wcwidth": "ext:formatstring.wcwidth"},
+    loops={0: Loop(inv=lambda L: [L.self.chunk == L.old.chunk, L.self.internal_offset == 0, L.self.internal_width == 0,
+                                  z3.Length(S.as_int_seq(L.divides)) == L.k + 1])})
+reinit_body.loops[0].types = {"divides": "int"}
+
+
+def _wrapper_measurable(a):
+    return T.WCS(T.TEXT(T.FmtS.chunks(a.self))) != -1
+
+
+splitlines_wrapper = Contract(
+    M + "FmtStr.width_aware_splitlines", "C11", ["self", "columns"], kind="method",
+    shapes=[Shape("any", dict(self=FmtT(), columns=IntT()))],
+    raises={"ValueError": lambda a: Or(a.columns < 2, Not(_wrapper_measurable(a)))},
+    ensures=lambda a, r: [("post.hands_over_to_the_line_filler", True)],
+    callees={"wcswidth": "ext:formatstring.wcswidth"})
+# (the call self._width_aware_splitlines(columns) creates the generator verified above; calling a generator function runs none of its body)
+Contract(M + "FmtStr._width_aware_splitlines", "C11", ["self", "columns"], kind="method", shapes=[],
+         result=lambda a, st: __import__("pyvc.values", fromlist=["OpaqueV"]).OpaqueV("generator"))
+
+GENERATOR_CONTRACTS = [request, reinit_body, splitlines_gen, splitlines_wrapper]
